@@ -237,6 +237,102 @@ def plan_undisturbed(sc, o):
     return bad
 
 
+def stop_dispatch_scenarios(rng, n):
+    """a subscriber writes to a monitored signal WHILE the RunStop of its run is being dispatched: the run is over, nothing
+    may be emitted for it any more and the numbers in the RunStop stay true"""
+    out = []
+    for i in range(n):
+        key = rng.choice([None, "a"])
+        body = [M("open_run", run=key), M("monitor", "s1", run=key, name="s1_monitor"), M("checkpoint")] + _point(key)
+        body += [M("null")] * rng.randrange(0, 3)
+        if rng.random() < 0.25:
+            body += [M("unmonitor", "s1", run=key)]
+        ending = "close" if rng.random() < 0.8 else "leave-open"
+        if ending == "close":
+            body += [M("close_run", run=key)]
+        sc = {"record_interruptions": False, "devices": {"s1": {"kind": "sig"}, "d1": {"kind": "det"}}, "plan": seq(*body), "script": {"2": [{"a": "monitor", "sig": "s1", "v": 5}]},
+              "decisions": [], "max_arrivals": 100, "doc_triggers": {"stop": [{"a": "monitor", "sig": "s1", "v": 7000 + i}]},
+              "tag": "fault-probe:stop-dispatch", "fault": {"kind": "update-while-stop-is-dispatched"}, "ending": ending}
+        out.append(number(sc))
+    return out
+
+
+def num_events_true(sc, o):
+    """the RunStop's num_events equals the events emitted for that run, per stream"""
+    bad = []
+    for stop in [d for d in o["docs"] if d["k"] == "stop"]:
+        r = stop["run"]
+        per = {}
+        for d in o["docs"]:
+            if d["k"] == "event" and d["run"] == r:
+                per.setdefault(d["stream"], set()).add(d["seq"])
+        for st, seqs in per.items():
+            if stop["num_events"].get(st, 0) != len(seqs):
+                bad.append(("num_events-differs-from-events-emitted", f"{r}/{st}: seq_nums {sorted(seqs)} were emitted but RunStop.num_events = {stop['num_events'].get(st, 0)} (fault: {sc.get('fault')})"))
+    return bad
+
+
+def odd_status_scenarios(rng, n):
+    """a device action whose Status ends done / NOT successful while exception() returns None (allowed by the Status
+    protocol): the failure reaches the plan as FailedStatus at the wait of its group all the same"""
+    out = []
+    for _ in range(n):
+        cmd = rng.choice(["set", "trigger"])
+        dev = "m1" if cmd == "set" else "d1"
+        args = [2] if cmd == "set" else []
+        act = M(cmd, dev, *args, group="g")
+        body = [M("open_run"), M("checkpoint"), act, M("null"), M("wait", None, group="g"), M("null"), M("close_run")]
+        handled = rng.random() < 0.5
+        if handled:
+            body = [M("open_run"), M("checkpoint"), act, {"k": "try", "body": seq(M("wait", None, group="g"), M("null")), "handler": M("null"), "fin": None}, M("close_run")]
+        sc = {"record_interruptions": False, "devices": {"m1": {"kind": "motor", "modes": {"set": ["fail-noexc"]}}, "d1": {"kind": "det", "modes": {"trigger": ["fail-noexc"]}}},
+              "plan": seq(*body), "script": {}, "decisions": [], "max_arrivals": 100, "tag": "fault-probe:odd-status",
+              "fault": {"kind": "failed-status-without-exception", "cmd": cmd, "handled": handled}, "ending": "close"}
+        out.append(number(sc))
+    return out
+
+
+def failed_status_delivered(sc, o):
+    bad = []
+    thrown = [y for y in o["yields"] if y[1] in ("throw", "caught") and y[2] == "FailedStatus"]
+    if not thrown:
+        bad.append(("failed-status-without-exception-treated-as-success", f"{sc['fault']['cmd']} ended with a Status done / not successful (exception() is None): no FailedStatus reached the plan; the call ended {[r[1] for r in o['returns']]}"))
+    elif not sc["fault"]["handled"] and not any(r[1] == "raise:FailedStatus" for r in o["returns"]):
+        bad.append(("unhandled-failed-status-does-not-end-the-call", f"calls ended {[r[1] for r in o['returns']]}"))
+    return bad
+
+
+def cross_run_checkpoint_scenarios(rng, n):
+    """two runs interleaved at message level; a checkpoint (addressed to the other run, or to none) arrives while one run is
+    between create and save: it is rejected like any checkpoint inside a bundle (the rewind point is shared by all runs)"""
+    out = []
+    for _ in range(n):
+        ck_key = rng.choice(["b", None, "a"])
+        body = [M("open_run", run="a"), M("open_run", run="b"), M("checkpoint"),
+                M("create", None, run="a", name="primary"), M("read", "d1", run="a")]
+        ck = M("checkpoint", None, run=ck_key)
+        body.append({"k": "try", "body": ck, "handler": M("null"), "fin": None})
+        body += [M("null"), M("save", None, run="a"), M("close_run", run="a"), M("close_run", run="b")]
+        sc = {"record_interruptions": False, "devices": {"d1": {"kind": "det"}}, "plan": seq(*body), "script": {}, "decisions": ["resume"] * 3, "max_arrivals": 100,
+              "tag": "fault-probe:cross-run-checkpoint", "fault": {"kind": "checkpoint-inside-another-runs-bundle", "checkpoint_run": ck_key}, "ending": "close"}
+        out.append(number(sc))
+    return out
+
+
+def checkpoint_rejected(sc, o):
+    bad = []
+    ck = [y for y in o["yields"] if y[1] in ("caught", "throw") and y[2] == "IllegalMessageSequence"]
+    if not ck:
+        bad.append(("checkpoint-inside-another-runs-bundle-accepted", f"checkpoint(run={sc['fault']['checkpoint_run']!r}) while run 'a' was between create and save was not rejected with IllegalMessageSequence"))
+    for r in o["returns"]:
+        if r[1] not in ("return", "raise:RunEngineInterrupted"):
+            bad.append((f"call-ended-{r[1]}", f"{r[0]} ended with {r[1]} ({o['return_texts']})"))
+    evs = [d for d in o["docs"] if d["k"] == "event" and d["run"] == "run#0"]
+    if o["final_state"] == "idle" and not evs:
+        bad.append(("event-of-the-open-bundle-lost", "run 'a' ended without the event of the bundle that was open when the checkpoint arrived"))
+    return bad
+
+
 def all_scenarios(rng, n):
     a = close_fault_scenarios(rng, n)
     b = teardown_request_scenarios(rng, max(1, n // 3))
@@ -325,7 +421,7 @@ def callback_exception_policy(sc, o):
     return bad
 
 
-FAMILIES = {"list-plan-suspension": list_plan_suspension_scenarios, "pause-hook": pause_hook_scenarios, "close": close_fault_scenarios, "teardown-request": teardown_request_scenarios, "leftover-stage": leftover_stage_scenarios}
+FAMILIES = {"stop-dispatch": stop_dispatch_scenarios, "odd-status": odd_status_scenarios, "cross-run-checkpoint": cross_run_checkpoint_scenarios, "list-plan-suspension": list_plan_suspension_scenarios, "pause-hook": pause_hook_scenarios, "close": close_fault_scenarios, "teardown-request": teardown_request_scenarios, "leftover-stage": leftover_stage_scenarios}
 
 
 def run_probes(ctx, res, judges, families, quick, thorough):
